@@ -3,6 +3,7 @@ package config
 import (
 	"encoding/json"
 	"fmt"
+	"sort"
 	"strconv"
 	"strings"
 	"time"
@@ -51,6 +52,17 @@ func NewStringMap() *StringMap {
 	return &StringMap{
 		Fields: make(map[string]string),
 	}
+}
+
+// SortedKeys returns the keys of Fields in ascending order, so that a settings change
+// is processed in the same order (and fails with the same message) on every node.
+func (im *StringMap) SortedKeys() []string {
+	keys := make([]string, 0, len(im.Fields))
+	for k := range im.Fields {
+		keys = append(keys, k)
+	}
+	sort.Strings(keys)
+	return keys
 }
 
 func (im *StringMap) Decode(input []byte) error {
